@@ -32,7 +32,9 @@ DW_PROGRAMS = [
 ]
 INPUTS = ["1", "3", "7 2"]
 DW_INPUTS = ["", "", ""]          # the Dwarf value alone (three separately opened values; each may be reused)
-OTHERS = ["1 2 3 `[7]", "1 2 3 ``[7]", "(1, 2)*", "let X := 5; X", '"%( 1, 2 %)"', "1 2 3 4 ```[]", "{1} apply"]
+OTHERS = ["1 2 3 `[7]", "1 2 3 ``[7]", "(1, 2)*", "let X := 5; X", '"%( 1, 2 %)"', "1 2 3 4 ```[]", "{1} apply",
+          # queries that are rejected, each for another reason (whatever the compiler noted about them must be gone)
+          "1 123456789012345678901234567890 add", "1 0x1ffffffffffffffff", "(1", "let A := 1; let A := 2;", "B", '"%( 1 "', "08"]
 
 
 def hexs(s):
@@ -196,10 +198,22 @@ def run(ctx):
     viol = 0
     samples = []
     for (p, f, toks, info), r in zip(meta, hres):
+        if r.compile_error is not None and ref[(p, f, 0)].compile_error is None and not ref[(p, f, 0)].crash:
+            viol += 1
+            if viol <= 6:
+                ctx.violation("`%s` compiles in a fresh process; after other histories in the same process it is rejected: %s" % (p, r.compile_error),
+                              {"query": p, "script": toks, "file": f})
+            continue
         if r.compile_error is not None or "input_error" in r.d:
             continue
         if r.crash and "timeout" in str(r.crash):
             continue            # a program whose evaluation does not finish in time says nothing about purity
+        if "recompile_error" in r.d:
+            viol += 1
+            if viol <= 6:
+                ctx.violation("`%s` compiled at the start of a history; compiled again later in the same process it is rejected: %s" % (p, r.d["recompile_error"]),
+                              {"query": p, "script": toks, "file": f})
+            continue
         if r.crash:
             viol += 1
             if viol <= 6:
